@@ -91,13 +91,13 @@ def main():
             "level_note": note,
             "technique": tech,
         })
-    hooks_commits = ["e7596f1", "2b22de9"]
+    hooks_commits = ["e7596f1", "2b22de9", "80ccd6b"]
     m = {
         "version": 1,
         "setup_cmd": "(/venv/bin/python -c 'import hypothesis' 2>/dev/null || PIP_NO_INDEX=1 /venv/bin/pip install --no-index --find-links /opt/veriftools/wheels hypothesis) && (PYTHONPATH=/verif/.deps /venv/bin/python -c 'import atheris' 2>/dev/null || PIP_NO_INDEX=1 /venv/bin/pip install -q --no-index --find-links /opt/veriftools/wheels --target /verif/.deps atheris || true)",
         "hooks": {
             "guard": "HGX_VERIF",
-            "enable": "environment variable HGX_VERIF=1 (set by every check command). Only hook: add-only counters/log of numerical guard events in hypergraphx/communities/hypergraph_mt/model.py (GUARD_EVENTS, GUARD_LOG, _verif_guard_event), read by C17 to attribute likelihood decreases to guard call sites; inert when the variable is unset. All other oracles use the public API only.",
+            "enable": "environment variable HGX_VERIF=1 (set by every check command). Only hook: add-only counters/log of numerical guard events in hypergraphx/communities/hypergraph_mt/model.py (GUARD_EVENTS, GUARD_LOG, GUARD_UMAX, _verif_guard_event, _verif_iteration_done), read by C17 to attribute likelihood decreases to guard call sites; inert when the variable is unset. All other oracles use the public API only.",
             "baseline_off_cmd": "cd /repo && env -u HGX_VERIF /venv/bin/python -m pytest -ra -q -p no:cacheprovider --timeout=900 --continue-on-collection-errors",
             "source_commits": hooks_commits,
             "add_only": True,
